@@ -71,10 +71,11 @@ def gen_world(args, scratch):
                                           for b, nt, nc, path, site in prof]
     d = libdir(scratch, runname, compl)
     out['hashes'] = file_hashes(d)
+    out['real_expired'] = sum((rk.get('clock') or {}).get('real_expired', 0) for rk in out['ranks'])
     if res['violation'] is None and res['diverged'] is None:
         if args.get('ref_hashes'):
             out['diff'] = sorted(f for f, h in args['ref_hashes'].items() if out['hashes'].get(f) != h)
-        if args.get('cmp_hashes'):
+        if args.get('cmp_hashes') and not out['real_expired']:
             ch = args['cmp_hashes']
             out['cmpdiff'] = sorted(f for f in set(ch) | set(out['hashes']) if ch.get(f) != out['hashes'].get(f))
     if res['violation'] is None and res['diverged'] is None and args.get('oracle', True):
@@ -447,6 +448,11 @@ def subs_world(args, scratch):
                 break
         if not probs and args['bcast_res'] and any(l != loaded[0] for l in loaded):
             probs.append(('ranks-disagree',))
+        if not probs and args['use_sympy']:
+            ap = res['ranks'][0]['out'].get('load_subs_applied', {}).get('k')
+            if ap is not None:
+                for p in subs_model.check_applied(rows, ap, int(args['max_param'])):
+                    probs.append(p)
         import hashlib
         out['result_digest'] = hashlib.sha256(repr(loaded[0]).encode()).hexdigest()[:24]
         if chains and not probs:
@@ -499,6 +505,7 @@ def history_world(args, scratch):
         a = dict(args, P=seg['P'], seed=int(args.get('seed', 0)) + si, script=None)
         res = run_world(world_spec(a, seg['program']), H)
         last = res
+        out['real_expired'] = out.get('real_expired', 0) + sum(((rk.get('clock') or {}).get('real_expired', 0)) for rk in res['ranks'])
         out['steps'] += res['steps']
         out['nfs'] += res['nfs']
         out['nmpi'] += res['nmpi']
@@ -553,8 +560,14 @@ def history_world(args, scratch):
                 h1, h2 = file_hashes(od_h), file_hashes(od_f)
                 out['hashes'] = h1
                 bad = sorted(f % comp for f in STAGE_FILES[obs['stage']] if h1.get(f % comp) != h2.get(f % comp))
+                if obs['stage'] == 'test_all' and (obs.get('kw') or {}).get('ignore_previous_eqns'):
+                    pf = 'previous_eqns_%d.txt' % comp
+                    if file_hashes(libdir(H, obs['runname'], comp)).get(pf) != file_hashes(libdir(F, obs['runname'], comp)).get(pf):
+                        bad.append(pf)
                 if bad:
                     probs.append(('fit:' + obs['stage'], bad[0], bad))
+    if out.get('real_expired'):
+        probs = []      # a real-time cap expiry makes library bytes load dependent: no byte comparison
     out['probs'] = [list(map(str, p)) for p in probs]
     out['sig'] = ('history-dep:%s:%s' % (probs[0][0], probs[0][1])) if probs else None
     return out
